@@ -1262,6 +1262,69 @@ def r10_flag_writers_and_pairing(facts):
                         c.check(ok, "flag-writer:%s#%s" % (b["def"], chain[-1]), loc(b, n), why_ok,
                                 "flag %s is written (Cell::%s) outside tracked/untracked/start_tracking/stop_tracking" % (chain[-1], mth))
     c.floor("flag write sites", n_w, 4)
+    # what the flag API writes: tracked() -> both flags true, untracked() -> both false, start_tracking() -> is_tracked true,
+    # stop_tracking() -> is_tracked false (constants read from the bodies; one level into private helpers called with literal arguments)
+    want_api = {"tracked": {"is_tracked": True, "keep_gradient": True}, "untracked": {"is_tracked": False, "keep_gradient": False},
+                "start_tracking": {"is_tracked": True}, "stop_tracking": {"is_tracked": False}}
+    roles_ = field_roles(base)
+    flag_names = list(flags)
+
+    def canonical_flag(name):
+        # after role canonicalisation the two flags keep their source names on the pinned tree; map by position otherwise
+        return name
+
+    def writes_of(body, subst, depth=0):
+        """[(flag, value|None)] written by Cell::set / Cell::replace on self.<flag> in `body`, with parameters replaced by literals from `subst`"""
+        out = []
+        sv = self_var(base, body)
+        for n in walk(base.root(body)):
+            if n.get("k") != "Call" or not n.get("args"):
+                continue
+            cn = callee(n) or ""
+            if cn.startswith(CELL) and cn.split("::")[-1] in CELL_WRITES and len(n["args"]) >= 2:
+                r_, ch = field_chain(n["args"][0])
+                if ch and ch[-1] in flag_names and var_of(r_) == sv:
+                    a = strip(n["args"][1])
+                    v = lit_value(a)
+                    if not isinstance(v, bool) and a.get("k") in ("VarRef", "UpvarRef") and a["v"] in subst:
+                        v = subst[a["v"]]
+                    out.append((ch[-1], v if isinstance(v, bool) else None))
+            elif depth < 2 and (n.get("callee") or {}).get("resolved_local"):
+                hb = base.body(resolved(n))
+                if hb is not None and hb.get("impl_self") == ARRAY and hb.get("impl_trait_def") is None and not hb.get("reachable") and hb.get("thir") \
+                        and var_of(peel(n["args"][0])) == sv:
+                    hps = [p_ for p_ in base.params(hb) if p_.get("pat")]
+                    sub2 = {}
+                    for p_, a in zip(hps[1:], n["args"][1:]):
+                        v = lit_value(strip(a))
+                        if isinstance(v, bool) and p_["pat"].get("k") == "Binding":
+                            sub2[p_["pat"]["v"]] = v
+                    out.extend(writes_of(hb, sub2, depth + 1))
+        return out
+    for b in base.fns():
+        if not (b.get("impl_self") == ARRAY and b.get("impl_trait_def") is None and b.get("name") in want_api and b.get("thir")):
+            continue
+        ws = writes_of(b, {})
+        inst = "flag-api:%s" % b["name"]
+        where = "%s:%d" % (F.rel(b["file"]), b["sp"][0])
+        problems, unknown = [], []
+        for fl_, val in want_api[b["name"]].items():
+            got = [v for f_, v in ws if f_ == fl_]
+            if not got:
+                problems.append("%s() never writes %s (it must become %s)" % (b["name"], fl_, str(val).lower()))
+            elif any(v is None for v in got):
+                unknown.append("%s is written with a value that is not a constant here" % fl_)
+            elif got[-1] != val or any(v != val for v in got):
+                problems.append("%s() writes %s = %s; it must become %s" % (b["name"], fl_, str(got[-1]).lower(), str(val).lower()))
+        for f_, v in ws:
+            if f_ not in want_api[b["name"]]:
+                problems.append("%s() also writes %s" % (b["name"], f_))
+        if problems:
+            c.bad(inst, where, "; ".join(problems))
+        elif unknown:
+            c.unk(inst, where, "; ".join(unknown))
+        else:
+            c.ok(inst, where, "%s() writes %s" % (b["name"], ", ".join("%s = %s" % (k_, str(v_).lower()) for k_, v_ in want_api[b["name"]].items())))
     for b in base.bodies:
         mir = b.get("mir")
         if not mir:
